@@ -115,10 +115,15 @@ func wireRoundTrip(c *vm.Ctx, r *vm.Rand, ct cont, model []int, h *hist, into co
 	}
 	c.Cover(fmt.Sprintf("wire.%s.%s.width%d", h.k.name, info.Form, info.Width))
 	// read into another container
-	in := append(append([]byte{}, buf.Bytes()...), 0xde, 0xad, 0x00)
-	rd := bytes.NewReader(in)
+	// the source is whatever io.Reader the caller has: with or without ReadByte, short reads, (0, nil) now and then, or the
+	// last bytes together with io.EOF (then nothing follows the container)
+	rd, left, trailer, rkind := makeSource(r, buf.Bytes())
 	var rn int64
-	h.op("ReadFrom into " + intoDesc)
+	if rkind == "bytes.Reader" {
+		h.op("ReadFrom into " + intoDesc)
+	} else {
+		h.op("ReadFrom into " + intoDesc + " from a " + rkind)
+	}
 	if c.Guard("wire/read/"+h.k.name, h.wit, func() { rn, err = into.ReadFrom(rd) }) {
 		return nil, false
 	}
@@ -126,14 +131,15 @@ func wireRoundTrip(c *vm.Ctx, r *vm.Rand, ct cont, model []int, h *hist, into co
 		c.Violation("wire/read-error/"+h.k.name, "reading the container's own wire form failed: "+err.Error(), h.wit())
 		return nil, false
 	}
-	if rn != int64(buf.Len()) || rd.Len() != 3 {
-		c.Violation("wire/read-count/"+h.k.name, fmt.Sprintf("ReadFrom returned n=%d, left %d bytes; the container is %d bytes followed by 3", rn, rd.Len(), buf.Len()), h.wit())
+	if rn != int64(buf.Len()) || left() != trailer {
+		c.Violation("wire/read-count/"+h.k.name, fmt.Sprintf("ReadFrom returned n=%d, left %d bytes; the container is %d bytes followed by %d", rn, left(), buf.Len(), trailer), h.wit())
 		return nil, false
 	}
 	ok := false
 	c.Guard("model/after-read/"+h.k.name, h.wit, func() { ok = fullCompare(c, into, model, h, "after-wire-roundtrip-into-"+intoDesc) })
 	if ok {
 		c.Cover("reload." + intoDesc)
+		c.Cover("reload-from." + rkind)
 	}
 	return into, ok
 }
@@ -302,15 +308,15 @@ func interopRead(c *vm.Ctx, r *vm.Rand, k *kind) {
 	if r.Bool() {
 		dst, dstDesc = usedReceiver(c, r, k)
 	}
-	h.op("ReadFrom into " + dstDesc)
-	rd := bytes.NewReader(append(append([]byte{}, wire...), 1, 2))
+	rd, left, trailer, rkind := makeSource(r, wire)
+	h.op("ReadFrom into " + dstDesc + " from a " + rkind)
 	var n int64
 	var err error
 	if c.Guard("interop/read/"+k.name, h.wit, func() { n, err = dst.ReadFrom(rd) }) {
 		return
 	}
-	if err != nil || n != int64(len(wire)) || rd.Len() != 2 {
-		c.Violation("interop/read/"+k.name, fmt.Sprintf("reading a reference-encoded container: n=%d (want %d) remaining=%d err=%v", n, len(wire), rd.Len(), err), h.wit())
+	if err != nil || n != int64(len(wire)) || left() != trailer {
+		c.Violation("interop/read/"+k.name, fmt.Sprintf("reading a reference-encoded container: n=%d (want %d) remaining=%d (want %d) err=%v", n, len(wire), left(), trailer, err), h.wit())
 		return
 	}
 	c.Guard("interop/compare/"+k.name, h.wit, func() {
@@ -378,6 +384,11 @@ func distinctValues(r *vm.Rand, k *kind, np int) []int {
 // usedReceiver builds a container with a past of its own: values set into a fresh one, or one built from a saved
 // (palette, data) pair (a section loaded from disk that now receives a chunk update).
 func usedReceiver(c *vm.Ctx, r *vm.Rand, k *kind) (cont, string) {
+	if r.Intn(6) == 0 {
+		if o, d, ok := failedReadReceiver(c, r, k); ok {
+			return o, d
+		}
+	}
 	if r.Intn(3) == 0 {
 		nps := []int{1, 2, 16, 17, 200, 300}
 		if !k.pk.Blocks {
@@ -427,6 +438,8 @@ func checkWithData(c *vm.Ctx, r *vm.Rand, k *kind) {
 		variant = "minimal"
 		valSig  string
 		what    string
+
+		emptyData bool
 	)
 	model := make([]int, k.length)
 	h := &hist{k: k}
@@ -469,6 +482,11 @@ func checkWithData(c *vm.Ctx, r *vm.Rand, k *kind) {
 			model[i] = pal[idx[i]]
 		}
 		data = refwire.PackLongs(idx, width)
+		if emptyData = data == nil && r.Bool(); emptyData {
+			// no index array: to one caller that is a nil slice, to another an empty one
+			data = []uint64{}
+			h.op("data is an empty slice that is not nil")
+		}
 		h.op(fmt.Sprintf("WithData(palette of %d entries, %d-bit indices, %d longs; %s)", np, width, len(data), variant))
 		if np <= 16 {
 			h.op(fmt.Sprintf("palette=%v", pal))
@@ -531,6 +549,9 @@ func checkWithData(c *vm.Ctx, r *vm.Rand, k *kind) {
 	}
 	if overwritten {
 		c.Cover("withdata." + k.name + ".caller-overwrote-its-slices")
+	}
+	if emptyData {
+		c.Cover("withdata." + k.name + ".empty-data-slice-that-is-not-nil")
 	}
 	toWire := func(cover string) bool {
 		var into cont
@@ -636,6 +657,14 @@ func run(c *vm.Ctx) {
 	for i := 0; i < c.Scale(4000, 40000); i++ {
 		interopRead(c, ir, blocks)
 		interopRead(c, ir, biomes)
+	}
+	ur := c.Rand("unusual")
+	for i := 0; i < c.Scale(2000, 20000); i++ {
+		interopUnusual(c, ur, blocks)
+		interopUnusual(c, ur, biomes)
+	}
+	if c.Shard == 1%c.NShards {
+		sideBySide(c, c.Rand("side-by-side"), []*kind{blocks, biomes})
 	}
 	wr := c.Rand("withdata")
 	for i := 0; i < c.Scale(4000, 40000); i++ {
